@@ -2539,7 +2539,11 @@ impl<'de> serde::de::Visitor<'de> for AnnotationsVisitor<'_> {
             if let Some(mut annotationbuilder) = annotationbuilder {
                 let handle_from_temp_id = if self.store.config().strip_temp_ids() {
                     if let BuildItem::Id(s) = &annotationbuilder.id {
-                        resolve_temp_id(s.as_str())
+                        if s.starts_with(Annotation::temp_id_prefix()) {
+                            resolve_temp_id(s.as_str())
+                        } else {
+                            None
+                        }
                     } else {
                         None
                     }
